@@ -262,11 +262,20 @@ def run_check(check, tier, verif_seed, workers=None, budget_s=None, out=sys.stdo
             if "harness_error" in r:
                 agg["harness_errors"].append(r)
                 continue
-            agg["evaluations"] += 1
-            agg["digests"].add(r["digest"])
-            agg["cases"].add(r["case_id"])
-            if r["nontrivial"]:
-                agg["nontrivial_digests"].add(r["digest"])
+            if r.get("sub"):
+                # one spec executed a batch of sub-cases (e.g. an enumerated block of histories)
+                agg["evaluations"] += len(r["sub"])
+                for dg, nt in r["sub"]:
+                    agg["digests"].add(dg)
+                    if nt:
+                        agg["nontrivial_digests"].add(dg)
+                agg["cases"].add(r["case_id"])
+            else:
+                agg["evaluations"] += 1
+                agg["digests"].add(r["digest"])
+                agg["cases"].add(r["case_id"])
+                if r["nontrivial"]:
+                    agg["nontrivial_digests"].add(r["digest"])
             for k, v in r["faults"].items():
                 agg["faults"][k] = agg["faults"].get(k, 0) + v
             for k, v in r["probes"].items():
